@@ -553,6 +553,29 @@ func gen(g *core.G) {
 		rng := []string{">=" + ver, "<" + ver, ">" + lo + " <=" + hi, "~" + hi, "^" + hi, lo + " - " + hi, lo + " || " + hi, fmt.Sprintf("%d.x", r.Intn(9)), fmt.Sprintf("%d.%d.x", r.Intn(9), r.Intn(9))}[r.Intn(9)]
 		g.Emit("@codec svr " + h(rng))
 	}
+	// the Timespan codec against its model: canonical and non-canonical texts of the default format, and near misses
+	for _, src := range []string{"0-00:00:00.0", "1-1:2:3.4", "0-99:00:00.0", "00-00:00:00.5", "-0-00:00:00.0", "0-00:00:00.000000001",
+		"0-00:00:00.0000000001", "0-00:00:00.", "0-000:00:00.0", "0-00:00:00.0x", " 0-00:00:00.0", "0-00:00:0a.0", "--1-00:00:00.0",
+		"106751-23:47:16.854775807", "0-0:0:0.0"} {
+		g.Emit("span " + h(src))
+	}
+	for i := 0; i < 400*g.Scale; i++ {
+		src := ""
+		if r.Intn(3) == 0 {
+			src = "-"
+		}
+		two := func() string {
+			if r.Intn(4) == 0 {
+				return strconv.Itoa(r.Intn(10))
+			}
+			return fmt.Sprintf("%02d", r.Intn(100))
+		}
+		frac := strconv.FormatInt(r.Int63n(1000000000), 10)
+		frac = strings.Repeat("0", r.Intn(10-len(frac))) + frac
+		frac = frac[:1+r.Intn(len(frac))]
+		src += strconv.Itoa(r.Intn(100000)) + "-" + two() + ":" + two() + ":" + two() + "." + frac
+		g.Emit("span " + h(src))
+	}
 	// malformed ops (outside the quantifier; both sides must answer bad-op)
 	for _, v := range []string{"(= 1)", "(a 1 (= 1))", "(a 1 (a 1))", "(h 1 ((i 1)))", "(q)", "(l 1 zz x x)"} {
 		g.Emit("ser (o t t 2) (c t t 0) " + v)
